@@ -24,6 +24,8 @@ const CRASH_JOBS: &[&str] = &[
     "multi_sink",
     "fold_assoc",
     "keyed_chain",
+    "count_sink",
+    "set_sink",
 ];
 
 fn gen(rng: &mut Rng, i: usize) -> Case {
@@ -77,7 +79,19 @@ fn exec(c: &Case) -> Vec<String> {
         let r = run_job(job, n, bm, &cfg, Some(fault.clone()), uniq, Duration::from_secs(25));
         let fired = fault.fired_host.load(Ordering::SeqCst);
         let mut infra = false;
-        out.push(format!("fired {fired}"));
+        if fired >= 0 {
+            // every host running something downstream of the failed replica (from the execution graph)
+            let from = (
+                fault.fired_block.load(Ordering::SeqCst) as u64,
+                fired as u64,
+                fault.fired_replica.load(Ordering::SeqCst) as u64,
+            );
+            let hosts = downstream_hosts(job, n, bm, &cfg, from);
+            let hs: Vec<String> = hosts.iter().map(|h| h.to_string()).collect();
+            out.push(format!("fired {fired} downstream {}", hs.join(",")));
+        } else {
+            out.push(format!("fired {fired}"));
+        }
         for (h, ho) in r.hosts.iter().enumerate() {
             match ho {
                 None => out.push(format!("host {h} blocked")),
